@@ -53,6 +53,14 @@ CLAIMED = {
          'Static path rules: after every mutating jsonpointer call on the target, every path to the next operation passes exactly the inverse undo entry at the same path with the value read before the mutation; commit is assigned only after the loop and every error return marks abort; an unknown op stores an error; the unwinder replays every op_type in reverse with the matching call. Quantifies over all paths through apply_patch, i.e. every failure point of every operation sequence shape.',
          'Decides the undo-log structure; does not decide that each inverse restores the exact prior state for all documents, nor the from_diff law.',
          'DESIGN.md §4 C15'),
+ 'C16': ('dominance facts over the CFG of the merge-patch recursion',
+         'Static dominance facts of RFC 7386: insertions are control-dependent on a non-null patch member, an existing member is erased unconditionally in the found branch, a non-object patch is returned and a non-object target is reset before the loop, and the inserted value is the recursive merge of the old value (or an empty object). Necessary conditions of the algorithm on every path of the 40-line recursion.',
+         'Decides the listed dominance facts; does not decide equality with the RFC algorithm for all inputs nor the from_diff law.',
+         'DESIGN.md §4 C16'),
+ 'C18': ('set comparison of the encoder quote-trigger set with the parser special-character set; partial evaluation of the quote escape writer; dominance in the parser escaped_value state',
+         'Static set/table agreement for CSV: every character the parser treats specially inside an unquoted field (read from the unquoted_string state) triggers quoting in the encoder, the escape writer and the parser escaped state are inverse. Necessary conditions of the CSV round trip for every string content.',
+         'Decides the CSV quoting clauses; does not decide table equality after a round trip, type inference, nor the TOON pair.',
+         'DESIGN.md §4 C18'),
 }
 NOT_YET = 'check under construction in this session; no structural rule registered yet'
 NA = {}
